@@ -26,7 +26,7 @@ RULE = ('Random expression trees (depth <= 4, unary signs, parentheses, random s
         'right operand\'s top-level operator binds weaker than the applied one, or an operand is attached in a document, or the chain has length >= 2.')
 ASSUMPTIONS = ['// is not in the property', 'whether an in-place operator consumes a free right operand is not asserted', 'cases whose evaluation divides by zero are discarded']
 SHRINK_LISTS = ('chain', 'dirs')
-REQUIRED_CLASSES = ('reflected-with-expression', 'inplace-statement', 'operand:self', 'form:plain', 'form:reflected', 'form:inplace', 'form:unary', 'operand:int', 'operand:dec', 'operand:expr', 'operand:attached', 'base:attached',
+REQUIRED_CLASSES = ('base:written-int', 'operand:fromint', 'reflected-with-expression', 'inplace-statement', 'operand:self', 'form:plain', 'form:reflected', 'form:inplace', 'form:unary', 'operand:int', 'operand:dec', 'operand:expr', 'operand:attached', 'base:attached',
                     'base:free', 'needs-parens')
 
 TOKEN_RE = re.compile(r'\s*(?:(\d{1,3}(?:,\d{3})+(?:\.\d*)?|\d+(?:\.\d*)?)|(.))', re.S)
@@ -137,6 +137,11 @@ def run_case(case: dict) -> Result:
     except (lark.exceptions.LarkError, ValueError):
         return Result(discard=True)
     try:
+        if base.get('written') is not None:
+            # the documented way of writing a number: `expr.value = 8` (an int) or a Decimal; the chain then starts from a written number
+            w = base['written']
+            cur.value = int(w['v']) if w['vt'] == 'int' else decimal.Decimal(w['v'])
+            classes.add('base:written-' + w['vt'])
         # (1) value of the parsed expression
         text = O.print_text(cur)
         try:
@@ -162,6 +167,8 @@ def run_case(case: dict) -> Result:
                     operand = decimal.Decimal(o['v'])
                 elif vt == 'expr':
                     operand = common.parser().parse(o['v'], models.NumberExpr)
+                elif vt == 'fromint':
+                    operand = models.NumberExpr.from_value(int(o['v']))   # an expression built from an int
                 elif vt == 'self':
                     if form == 'reflected':
                         continue
@@ -176,13 +183,20 @@ def run_case(case: dict) -> Result:
                     operand_doc = root
                 else:
                     continue
-                if form == 'reflected' and vt not in ('int', 'dec', 'expr', 'attached'):
+                if form == 'reflected' and vt not in ('int', 'dec', 'expr', 'fromint', 'attached'):
                     continue
                 if form == 'inplace' and vt == 'attached':
                     continue  # a refusal (C19)
                 classes.add('operand:' + vt)
             a0 = cur.value
             b0 = operand.value if hasattr(operand, 'value') else (decimal.Decimal(operand) if operand is not None else None)
+            # the reference arithmetic is decimal whatever the library hands back (a number written as an int may read as an int)
+            bad_type = next((x for x in (a0, b0) if x is not None and not isinstance(x, (int, decimal.Decimal))), None)
+            if bad_type is not None:
+                res.bad('value-not-decimal', f'an expression printing {O.print_text(cur)!r} / operand {o} reads {bad_type!r} ({type(bad_type).__name__}), not a decimal value')
+                break
+            a0 = decimal.Decimal(a0)
+            b0 = decimal.Decimal(b0) if b0 is not None else None
             try:
                 if form == 'unary':
                     exp = a0 if op == 'pos' else -a0
@@ -309,6 +323,8 @@ def _build(tier: str):
                 groups.append(g.directive(g.pick(['transaction', 'balance', 'price', 'custom', 'open']))['lines'])
             case['dirs'] = L.merge_comments([c for c in (g.join_lines(x) for x in groups) if c])
         case['base'] = {'attached': attached and g.p(0.8), 'mi': g.n(0, 20), 'text': L.text_of([g.number_expr(g.n(0, 4))])}
+        if g.p(0.3):
+            case['base']['written'] = {'vt': 'int', 'v': g.n(-20, 99)} if g.p(0.7) else {'vt': 'dec', 'v': str(decimal.Decimal(g.n(-9999, 99999)).scaleb(-g.n(0, 3)))}
         for _ in range(g.n(1, 5)):
             form = g.pick(['plain', 'plain', 'reflected', 'inplace', 'inplace', 'unary'])
             if form == 'unary':
@@ -318,7 +334,9 @@ def _build(tier: str):
             vt = g.pick(['int', 'dec', 'expr', 'expr', 'attached', 'self'] if g.p(0.3) else ['int', 'dec', 'expr', 'expr', 'attached'])
             if form == 'reflected':
                 vt = g.pick(['int', 'dec', 'int', 'dec', 'expr', 'attached'])
-            if vt == 'int':
+            if vt in ('int', 'expr') and g.p(0.2):
+                o = {'vt': 'fromint', 'v': g.n(-20, 99)}
+            elif vt == 'int':
                 o = {'vt': 'int', 'v': g.n(-20, 99)}
             elif vt == 'dec':
                 if g.p(0.25):
